@@ -613,10 +613,10 @@ Fixpoint set_key (k : string) (v : jv) (kvs : list (string * jv)) : list (string
   | [] => []
   | (k', x) :: r => if String.eqb k k' then (k', v) :: r else (k', x) :: set_key k v r
   end.
-(* to_dict()["settings"] : settings.model_dump(); BillingModel.to_dict forces developer_mode (billing/model.py:186) *)
+(* to_dict()["settings"] : settings.model_dump(); BillingModel.to_dict and BillingWeightedModel.to_dict force developer_mode (billing/model.py:186) *)
 Definition stored_settings (c : ctor) (s : sval) : jv :=
   match c, dump s with
-  | CBillingModel, JObj kvs => JObj (set_key "developer_mode" (JBool true) kvs)
+  | CBillingModel, JObj kvs | CBillingWeighted, JObj kvs => JObj (set_key "developer_mode" (JBool true) kvs)
   | _, d => d
   end.
 (* from_dict : cls(settings=doc) — DailyModel.from_dict never passes `model=` (daily/model.py:353-354) *)
